@@ -63,6 +63,7 @@ def lmutOfJson (j : Json) : Except String LMut := do
   | "remove" => pure (.remove (← argT j "v"))
   | "reverse" => pure .reverse
   | "sort" => pure (.sort (← j.getObjValAs? (List Nat) "perm"))
+  | "sortFail" => pure .sortFail
   | "clear" => pure .clear
   | "iadd" => pure (.iadd (← argKind j) (← argTs j "vs"))
   | "imul" => pure (.imul (← argInt j "c"))
